@@ -83,6 +83,13 @@ func encStream(rep *lib.Report, seed int64, perKindChain int, write bool) {
 			}
 		}
 	}
+	kept := items[:0]
+	for _, it := range items {
+		if it != "" {
+			kept = append(kept, it)
+		}
+	}
+	items = kept
 	if write {
 		lib.WriteCases("Cases_C12_enc.v", []string{"model.M_Abi", "model.M_CkDesc", "model.M_Confirm", "model.M_ConfirmCorr"}, "enc_case", items, "enc_mismatch")
 	}
@@ -116,7 +123,7 @@ func encCase(rep *lib.Report, chain string, o *Obj, gid string, key string) stri
 	rep.Count("enc-kind:" + kindName[o.Kind])
 	rep.Case(key, true)
 	rep.Sample(map[string]interface{}{"chain": chain, "object": o.Brief(), "checkpoint": fmt.Sprintf("%x", cp)})
-	return fmt.Sprintf("mk_enc_case %s %s %s %s", lib.Bytes([]byte(gid)), o.Coq(), lib.Bool(hashOK), words(pre))
+	return fmt.Sprintf("mk_enc_case %s %s %s %s", bytesL([]byte(gid)), o.Coq(), lib.Bool(hashOK), bytesL(pre))
 }
 
 // ---------------------------------------------------------------- conf stream
@@ -142,8 +149,9 @@ func confStream(rep *lib.Report, seed int64, nHist, nSteps int, write bool, only
 		r := lib.NewRand(seed*1_000_003 + 1000 + int64(i))
 		h := newHist(i, seed*7919+int64(i), histChain(i), r, i%3 != 2)
 		for s := 0; s < nSteps; s++ {
-			res := h.step(rep, s)
-			items = append(items, res.item)
+			if res := h.step(rep, s); res.item != "" {
+				items = append(items, res.item)
+			}
 			if r.Chance(12) {
 				lib.Must(h.c.NextBlock())
 				h.log = append(h.log, "next-block")
